@@ -44,23 +44,24 @@ type vioRec struct {
 
 // ragg aggregates all evaluations of one request on one tree.
 type ragg struct {
-	evals      int
-	withErr    int
-	noErr      int
-	ids        map[int]int // observed handler id -> evaluations
-	flipWithin bool        // two evaluations on the same built app picked different handlers
-	curBuild   int
-	curID      int
-	curSet     bool
-	events     map[uint64]int
-	vios       map[string]*vioRec // per-evaluation findings (count, status, delivered error)
-	errKind    string
-	posClass   string
-	fw404      int
-	fw405      int
-	bodyOdd    int
-	preDefault int // evaluations with a scripted status on the response, handled by the default handler
-	preAny     int // evaluations with an error and a scripted status on the response
+	evals         int
+	withErr       int
+	noErr         int
+	ids           map[int]int // observed handler id -> evaluations
+	flipWithin    bool        // two evaluations on the same built app picked different handlers
+	curBuild      int
+	curID         int
+	curSet        bool
+	events        map[uint64]int
+	vios          map[string]*vioRec // per-evaluation findings (count, status, delivered error)
+	errKind       string
+	posClass      string
+	fw404         int
+	fw405         int
+	bodyOdd       int
+	preDefault    int // evaluations with a scripted status on the response, handled by the default handler
+	preAny        int // evaluations with an error and a scripted status on the response
+	afterSendFile int // evaluations whose error reached the framework after a c.SendFile call in the chain
 	// the app the rule selects (under an accepted reading) answers with the default handler:
 	// the root without handler, or an app that names fiber.DefaultErrorHandler explicitly
 	defaultOK bool
@@ -109,6 +110,7 @@ func (a *ragg) merge(b *ragg) {
 	a.bodyOdd += b.bodyOdd
 	a.preDefault += b.preDefault
 	a.preAny += b.preAny
+	a.afterSendFile += b.afterSendFile
 	a.defaultOK = a.defaultOK || b.defaultOK
 	a.flipWithin = a.flipWithin || b.flipWithin
 	for k, v := range b.ids {
@@ -177,6 +179,12 @@ func judgeEval(ts *treeSpec, rq *reqSpec, s *slot, resp *drive.Resp, build int, 
 	if !framework {
 		kind = kindNames[s.plan.Kind]
 		pos = posClassOf(s.plan)
+		if s.sfErr {
+			kind, pos = "sendfile-404", "endpoint-sendfile"
+		}
+	}
+	if s.sent > 0 {
+		a.afterSendFile++
 	}
 	a.errKind, a.posClass = kind, pos
 	src := "handler-returned-error"
@@ -360,6 +368,11 @@ func (ts *treeSpec) hasExplicitDefault() bool {
 // select, the path and the expected app e. The rank orders classes when one request shows
 // several wrong handlers (lowest rank names the signature).
 func (ts *treeSpec) classifyWrong(w, e int, path string) (int, string) {
+	if _, xp := ts.expectedPlace(path, false); e > 0 && xp.NoSlash {
+		// the rule selects an app that (or whose enclosing app) was mounted under a prefix
+		// written without its leading slash
+		return 45, "mount-prefix-without-leading-slash"
+	}
 	if w == idDefault && ts.records(0) {
 		if ts.hasExplicitDefault() {
 			return 41, "default-handler-of-app-not-selected"
@@ -536,6 +549,11 @@ func conclude(ts *treeSpec, rq *reqSpec, a *ragg) []finding {
 	expName := "root"
 	if e > 0 {
 		expName = ts.Apps[e].Full + "#" + strconv.Itoa(e)
+	}
+	if a.afterSendFile > 0 && bestClass != "" && bestRank != 45 {
+		// the error reached the framework after c.SendFile ran earlier in the chain: one
+		// input class whatever the relation of the handler that ran
+		bestRank, bestClass = 46, "error-after-sendfile-in-chain"
 	}
 	// Two mounted apps with the same full mount path share one slot in fiber's path-keyed app
 	// list (one shadows the other): a separate root cause, named in the class.
@@ -812,6 +830,7 @@ func (rn *runner) judgeTree(c *ev.Case, ts *treeSpec, reqs []reqSpec) map[string
 		e.Stat("framework_405_delivered", int64(a.fw405))
 		e.Stat("recording_body_overwritten", int64(a.bodyOdd))
 		e.Stat("errors_with_earlier_status_on_response", int64(a.preAny))
+		e.Stat("errors_after_sendfile_in_chain", int64(a.afterSendFile))
 		e.Stat("errors_with_earlier_status_default_handler", int64(a.preDefault))
 		var keys []string
 		for k := range a.raisedAt {
@@ -1222,6 +1241,35 @@ func corpus(e *ev.Env, rn *runner) {
 				}
 			}
 		}
+	})
+	// an error that reaches the framework after c.SendFile ran earlier in the chain (missing
+	// file: its own 404; or a scripted error of the endpoint or of a middleware after Next) is
+	// scoped by the request path like any other; several requests on one reused RequestCtx
+	e.Corpus("error-after-sendfile", func(c *ev.Case) {
+		ts := mkTree(hOK, appSpec{Parent: 0, Rel: "/files", Handler: hOK, Mw: true}, appSpec{Parent: 1, Rel: "/docs", Handler: hFailPlain, Mw: true})
+		var reqs []reqSpec
+		for _, name := range []string{"a", "annual-report-2024.pdf", "a-much-longer-file-name-than-any-of-the-served-files-0123456789-0123456789.bin"} {
+			for sf := 1; sf <= 3; sf++ {
+				for app, p := range []string{"", "/files", "/files/docs"} {
+					with := func(pl plan) plan { pl.SendFile = sf; return pl }
+					reqs = append(reqs, get(p+"/f/"+name, with(none)), get(p+"/f/"+name, with(teapot(app, posEp))),
+						get(p+"/f/"+name, with(teapot(app, posMwPost))))
+				}
+			}
+		}
+		rn.judgeTree(c, ts, reqs)
+	})
+	// mount prefixes written without the leading slash: app.Use("api", sub), nested "v1/x",
+	// group prefix "g"; the routes answer below /api, /api/v1/x, /g/m
+	e.Corpus("mount-prefix-without-leading-slash", func(c *ev.Case) {
+		ts := mkTree(hOK, appSpec{Parent: 0, Rel: "/api", Handler: hOK, NoSlash: true})
+		rn.judgeTree(c, ts, []reqSpec{get("/api/e", teapot(1, posEp)), get("/api/zz", none)})
+		ts = mkTree(hOK, appSpec{Parent: 0, Rel: "/api", Handler: hOK}, appSpec{Parent: 1, Rel: "/v1/x", Handler: hOK, NoSlash: true})
+		rn.judgeTree(c, ts, []reqSpec{get("/api/v1/x/e", teapot(2, posEp)), get("/api/v1/x/zz", none)})
+		ts = mkTree(hOK, appSpec{Parent: 0, Rel: "/g/m", Handler: hOK, NoSlash: true, ViaGroup: true, GrpSet: true, GrpPrefix: "/g", GrpMount: "/m", GrpMountGiven: true})
+		rn.judgeTree(c, ts, []reqSpec{get("/g/m/e", teapot(1, posEp)), get("/g/m/zz", none)})
+		ts = mkTree(hOK, appSpec{Parent: 0, Rel: "/g/m", Handler: hOK, NoSlash: true, ViaGroup: true, GrpSet: true, GrpPrefix: "", GrpMount: "/g/m", GrpMountGiven: true})
+		rn.judgeTree(c, ts, []reqSpec{get("/g/m/e", teapot(1, posEp)), get("/g/m/zz", none)})
 	})
 	// control: disjoint prefixes, nested mounts, every position, every handler mode
 	e.Corpus("control-disjoint", func(c *ev.Case) {
